@@ -195,3 +195,54 @@ def formArgs (cfg : Cfg) (ext : Ext F) (tin : Scalar → Table) (inputs : List (
   { reqFailed := false, called := nerr == 0, args := if nerr == 0 then args else [], nerr := nerr }
 
 end Ggql.Args
+
+namespace Ggql.Args
+open Ggql.Coerce
+variable {F : Type}
+
+/-- what is left in the parsed request after `replaceArgVars` ran on an argument literal: object and
+list literals are Go maps / slices updated *in place* (`tv[k] = …`, `tv[i] = …`, and `Input.CoerceIn`
+/ `List.CoerceIn` write coerced values and defaults into the same map / slice), so the literal becomes
+the value that was handed to the resolver; anything else is left as written (D25) -/
+def literalAfter (inPlace : Bool) (lit out : Val F) : Val F :=
+  if !inPlace then lit else
+  match lit, out with
+  | .obj _, .obj o => .obj o
+  | .list _, .list o => .list o
+  | lit, _ => lit
+
+/-- the field's argument literals after one call -/
+def updateGiven (inPlace : Bool) (given args : List (String × Val F)) : List (String × Val F) :=
+  given.map (fun p =>
+    match lookup args p.1 with
+    | some out => (p.1, literalAfter inPlace p.2 out)
+    | none => p)
+
+/-- variable *defaults* are literals of the parsed request too: a default object / list that was used
+(the variable not supplied) for an argument given directly as `$v` is coerced in place -/
+def newDefault (inPlace : Bool) (vd : VarDef F) (supplied given args : List (String × Val F)) : Option (Val F) :=
+  match vd.dflt with
+  | none => none
+  | some d =>
+    let used := match lookup supplied vd.name with | some v => v.isNil | none => true
+    match given.find? (fun p => match p.2 with | .var n => n == vd.name | _ => false) with
+    | some p =>
+      (match lookup args p.1 with
+       | some out => if used then some (literalAfter inPlace d out) else some d
+       | none => some d)
+    | none => some d
+
+def updateDefaults (inPlace : Bool) (vdefs : List (VarDef F)) (supplied given args : List (String × Val F)) : List (VarDef F) :=
+  vdefs.map (fun vd => { vd with dflt := newDefault inPlace vd supplied given args })
+
+/-- a sequence of resolutions of one parsed field: each call sees the literals the previous call left -/
+def formArgsSeq (inPlace : Bool) (cfg : Cfg) (ext : Ext F) (tin : Scalar → Table) (inputs : List (InputDef F))
+    (decl : List ArgDef) :
+    List (VarDef F) → List (String × Val F) → List (List (String × Val F)) → List (Outcome F)
+  | _, _, [] => []
+  | vdefs, given, supplied :: rest =>
+    let o := formArgs cfg ext tin inputs vdefs supplied decl given
+    o :: formArgsSeq inPlace cfg ext tin inputs decl (updateDefaults inPlace vdefs supplied given o.args)
+      (updateGiven inPlace given o.args) rest
+
+end Ggql.Args
